@@ -217,14 +217,40 @@ def handlerInvocationV (v : Variant) (h : Option Handler) (args : Args) : Except
 def handlerInvocation : Option Handler → Args → Except Err Call := handlerInvocationV .repaired
 def handlerInvocationPinned : Option Handler → Args → Except Err Call := handlerInvocationV .pinned
 
+/-- decidable equality of results (core has none for `Except`), for `decide` in examples -/
+def exceptDecEq {ε α : Type} [DecidableEq ε] [DecidableEq α] : DecidableEq (Except ε α)
+  | .ok a, .ok b =>
+      if h : a = b then isTrue (by rw [h]) else isFalse (by intro h'; cases h'; exact h rfl)
+  | .error a, .error b =>
+      if h : a = b then isTrue (by rw [h]) else isFalse (by intro h'; cases h'; exact h rfl)
+  | .ok _, .error _ => isFalse (by intro h; cases h)
+  | .error _, .ok _ => isFalse (by intro h; cases h)
+
+instance : DecidableEq (Except Err Call) := exceptDecEq
+instance : DecidableEq (Except PyExc Info) := exceptDecEq
+instance : DecidableEq (Except PyExc St) := exceptDecEq
+
 /-! ## Well-formed parameter lists (what a Python `def`, and `inspect.Signature`, admit) -/
 
 def rank : Kind → Nat
   | .po => 0 | .pk => 1 | .vp => 2 | .ko => 3 | .vk => 4
 
-def isPositional (p : Param) : Bool := p.kind == .po || p.kind == .pk
+/-- fills a positional slot -/
+def isPositional (p : Param) : Bool :=
+  match p.kind with
+  | .po | .pk => true
+  | _ => false
+def isPO (p : Param) : Bool := match p.kind with | .po => true | _ => false
+def isVP (p : Param) : Bool := match p.kind with | .vp => true | _ => false
+def isKO (p : Param) : Bool := match p.kind with | .ko => true | _ => false
+def isVK (p : Param) : Bool := match p.kind with | .vk => true | _ => false
 def positional (s : Sig) : Sig := s.filter isPositional
-def hasKind (s : Sig) (k : Kind) : Bool := s.any (fun p => p.kind == k)
+/-- has a positional-only parameter -/
+def hasPO (s : Sig) : Bool := s.any isPO
+/-- has `*args` -/
+def hasVP (s : Sig) : Bool := s.any isVP
+/-- has `**kwargs` -/
+def hasVK (s : Sig) : Bool := s.any isVK
 
 /-- order of kinds, at most one `*args`, at most one `**kwargs` -/
 def kindOrder (a b : Param) : Prop :=
@@ -253,6 +279,19 @@ instance (s : Sig) : Decidable (WF s) :=
     else isFalse (fun h => h2 h.defaults)
   else isFalse (fun h => h1 h.order)
 
+/-- A well-formed handler: a well-formed effective parameter list, and the parameters the
+    wrapper has filled are no longer part of it (`inspect.signature` drops them; parameter names
+    of the underlying function are distinct). -/
+structure HandlerWF (h : Handler) : Prop where
+  sig : WF h.sig
+  preboundGone : ∀ k ∈ h.prebound, ∀ p ∈ h.sig, p.name ≠ k
+
+instance (h : Handler) : Decidable (HandlerWF h) :=
+  if h1 : WF h.sig then
+    if h2 : ∀ k ∈ h.prebound, ∀ p ∈ h.sig, p.name ≠ k then isTrue ⟨h1, h2⟩
+    else isFalse (fun h => h2 h.preboundGone)
+  else isFalse (fun h => h1 h.sig)
+
 /-! ## SPEC: can Python bind the call?  (Language Reference 6.3.4 "Calls")
 
 "A list of unfilled slots is created for the formal parameters.  If there are N positional
@@ -267,24 +306,30 @@ the syntax `**identifier` is present."  Positional-only parameters have no keywo
 `handler_invocation` passes either only positional or only keyword arguments. -/
 
 /-- can be filled by keyword -/
-def keywordable (p : Param) : Bool := p.kind == .pk || p.kind == .ko
+def keywordable (p : Param) : Bool :=
+  match p.kind with
+  | .pk | .ko => true
+  | _ => false
 /-- a formal-parameter slot (everything but `*args` / `**kwargs`) -/
-def isSlot (p : Param) : Bool := p.kind != .vp && p.kind != .vk
+def isSlot (p : Param) : Bool :=
+  match p.kind with
+  | .vp | .vk => false
+  | _ => true
 
 def bindable (h : Handler) : Args → Bool
   | .pos n =>
       let ps := positional h.sig
       -- more positional arguments than positional slots only with `*args`
-      (decide (n ≤ ps.length) || hasKind h.sig .vp)
+      (decide (n ≤ ps.length) || hasVP h.sig)
       -- the positional slots that stay unfilled have defaults
       && (ps.drop n).all (·.dflt)
       -- so do the keyword-only slots
-      && (h.sig.filter (fun p => p.kind == .ko)).all (·.dflt)
+      && (h.sig.filter isKO).all (·.dflt)
   | .named ns =>
       -- each keyword finds a free slot of its name, or `**kwargs` takes it; a slot already
       -- filled by the wrapper (bound `self`, partial's positionals) is "multiple values"
       ns.all (fun k => !h.prebound.contains k &&
-                (h.sig.any (fun p => keywordable p && p.name == k) || hasKind h.sig .vk))
+                (h.sig.any (fun p => keywordable p && p.name == k) || hasVK h.sig))
       -- every slot is filled by a keyword or has a default
       && h.sig.all (fun p => !isSlot p || p.dflt || (keywordable p && ns.contains p.name))
 
@@ -292,7 +337,7 @@ def bindable (h : Handler) : Args → Bool
     call to a handler with `**kwargs` that names a parameter the wrapper has already filled -/
 def collides (h : Handler) : Args → Bool
   | .pos _ => false
-  | .named ns => hasKind h.sig .vk && ns.any (fun k => h.prebound.contains k)
+  | .named ns => hasVK h.sig && ns.any (fun k => h.prebound.contains k)
 
 def isNamed : Args → Bool
   | .pos _ => false
